@@ -17,5 +17,5 @@ PROP = dict(
          "an explicit offset listed after an implicit one and >= 1 laid-out raw content; distinct by hash of the case",
     assumptions=["the document's quantities are read by the harness's own parser (<bytes>|<n>M|<n>G), structure identity is the yaml index",
                  "image files are sparse files of the generated size; only their size matters to layout"],
-    engines=[gt("layout", "gadget", "TestVerifC38Layout", dict(checks=1500, shards=2), dict(checks=50000, shards=16))],
+    engines=[gt("layout", "gadget", "TestVerifC38Layout", dict(checks=4000, shards=2), dict(checks=50000, shards=16))],
 )
